@@ -49,6 +49,7 @@ TABLE = {
  "hold_off counts from the last trigger that ran the function": ("C07", "new subsystem: @time_active(hold_off=10) above @event_trigger above @state_active(\"pyscript.gate == '1'\"), occurrences at 0, 11, 20, 29 s with the gate open, closed, open, open: the occurrence at 20 s was ignored (the rejected one at 11 s restarted the hold_off) and the one at 29 s ran"),
  "a trigger expression that evaluates to 0, '' or None counts as false": ("C07", "new subsystem: @state_active('int(pyscript.gate)') with pyscript.gate == '0' (also an expression giving '' or None): the event trigger ran the function although the guard value is falsy"),
  "a function replaced or deleted while its file loads never gets its triggers started": ("C09", "new subsystem: a file defining @event_trigger('ev1') def f twice (or defining a trigger function and deleting it with del) left the first definition's triggers active after loading: firing ev1 ran both definitions and the bus listener count was 3 instead of 1"),
+ "@service registers under its global context's name": ("C12", "new subsystem: a file's @service('test.f1') function redefined from inside a running service function of the same file (global fsvc; @service('test.f1') def fsvc ...): the new declaration was rejected ('already defined in file.a') and test.f1 no longer existed"),
 }
 log = subprocess.run(["git", "-C", "/repo", "log", "--reverse", "--format=%h %s"], capture_output=True, text=True).stdout.strip().split("\n")
 fixed = []
